@@ -5,7 +5,7 @@
 From Coq Require Import ZArith List Bool Lia.
 From FxV Require Import model.M_Migrate model.M_MigrateSpec model.M_MigrateCorr model.M_MigrateFollow model.M_MigrateHistory
   proofs.P_MigrateBase proofs.P_MigrateMature proofs.P_MigrateHist proofs.P_Migrate proofs.P_MigrateFollow proofs.P_MigrateFollowR
-  proofs.P_MigrateReachGov proofs.P_MigrateReach.
+  proofs.P_MigrateReachGov proofs.P_MigrateReach proofs.P_MigrateReachIdx.
 Import ListNotations.
 Open Scope Z_scope.
 
@@ -97,17 +97,20 @@ Section ReachThm.
   Qed.
 
   Theorem reach_indexes : forall e ops from to sg s', let s := reached e ops in
-    migrate_tx sigT recover s from to sg = Ok s' ->
-    idx36_ok s' /\ (idx71_ok s -> idx71_ok s') /\ (idx33_ok s -> idx33_ok s') /\ (idx35_ok s -> idx35_ok s') /\
-    (idx38_ok s -> idx38_ok s') /\
-    (forall kv e, In kv (ubds (stake s)) -> fst (fst kv) = from -> In e (u_entries (snd kv)) ->
-       exists k, sget Z.eqb (ue_id e) (unbidx (stake s')) = Some k /\ In (ue_id e, k) (unb_writes from to s)) /\
-    (forall kv e, In kv (reds (stake s)) -> fst (fst kv) = from -> In e (r_entries (snd kv)) ->
-       exists k, sget Z.eqb (re_id e) (unbidx (stake s')) = Some k /\ In (re_id e, k) (unb_writes from to s)).
+    (idx71_ok s /\ idx33_ok s /\ idx35_ok s /\ idx36_ok s) /\
+    (migrate_tx sigT recover s from to sg = Ok s' ->
+     (idx71_ok s' /\ idx33_ok s' /\ idx35_ok s' /\ idx36_ok s') /\ (idx38_ok s -> idx38_ok s') /\
+     (forall kv e, In kv (ubds (stake s)) -> fst (fst kv) = from -> In e (u_entries (snd kv)) ->
+        exists k, sget Z.eqb (ue_id e) (unbidx (stake s')) = Some k /\ In (ue_id e, k) (unb_writes from to s)) /\
+     (forall kv e, In kv (reds (stake s)) -> fst (fst kv) = from -> In e (r_entries (snd kv)) ->
+        exists k, sget Z.eqb (re_id e) (unbidx (stake s')) = Some k /\ In (re_id e, k) (unb_writes from to s))).
   Proof.
-    intros e ops from to sg s' s H. destruct (reached_hyps e ops) as (W & _ & I36 & _).
+    intros e ops from to sg s' s. destruct (reached_hyps e ops) as (W & _ & I36 & _).
+    destruct (reach_idxP sigT recover env ask env_next Sane e ops) as (I71 & I33 & I35).
+    split; [repeat split; assumption|]. intros H.
     destruct (indexes sigT recover _ _ _ _ _ W H) as (A & B & C & D & E & F & G).
-    split; [apply D, I36|]. split; [exact A|]. split; [exact B|]. split; [exact C|]. split; [exact E|]. split; [exact F | exact G].
+    split; [split; [apply A, I71 | split; [apply B, I33 | split; [apply C, I35 | apply D, I36]]]|].
+    split; [exact E|]. split; [exact F | exact G].
   Qed.
 
   Theorem reach_source_emptied : forall e ops from to sg s', let s := reached e ops in
